@@ -221,12 +221,43 @@ def token_leaves(toks):
     return out
 
 
+class ListSink(list):
+    """A writer that collects chunks in a list: empty - hence FALSY - until first written
+    to (a `target = target or default` in the code under test silently bypasses it)."""
+
+    def write(self, s):
+        self.append(s)
+        return len(s)
+
+    def flush(self):
+        pass
+
+    def getvalue(self):
+        return "".join(self)
+
+
+SERIALISE = {"n": 0, "sink-differs": []}
+
+
 def serialise(result):
-    """tosieve() of every top-level command into one string."""
+    """tosieve() of every top-level command into one string.  Every 4th call collects the
+    output a second time in a chunk list (ListSink) with stdout captured; both must agree."""
     buf = io.StringIO()
     for c in result:
         c.tosieve(target=buf)
-    return buf.getvalue()
+    out = buf.getvalue()
+    SERIALISE["n"] += 1
+    if SERIALISE["n"] % 4 == 0:
+        import contextlib
+        sink = ListSink()
+        leak = io.StringIO()
+        with contextlib.redirect_stdout(leak):
+            for c in result:
+                c.tosieve(target=sink)
+        if sink.getvalue() != out or leak.getvalue():
+            SERIALISE["sink-differs"].append((out[:200], sink.getvalue()[:200],
+                                              leak.getvalue()[:200]))
+    return out
 
 
 def first_diff(a, b, path=""):
